@@ -42,7 +42,7 @@ PROPS = {
                "any order in [-2pi,2pi], some joints from==to, wrapping) x sorting weights {0,1,0.3,0.5} x dof 5/6 x four entry "
                "points, each run with and without the limits on the same query (cmp2) x wrapper stacks to depth 3 incl. a "
                "parallelogram on top; constraints() of every stack. non-trivial = the constrained run returned a solution"),
-    "C04": cfg(1500, 150000, ["C04.", "C17.sorted"],
+    "C04": cfg(1500, 150000, ["C04.", "C17.sorted", "C11.exact_filter", "C05.first_eq_prev", "C05.equal_shift"],
                "hook-level normalize_near / calculate_distance on adversarial pairs (+-pi, +-2pi, signed zero, ties, far previous); "
                "queries (zoo x pose families x constraint families x sorting weights {0,1,0.3,0.5}) x previous families (origin, "
                "origin+turns, origin+small, sentinel, far, uniform [-2pi,2pi]) through inverse_continuing, inverse+inverse_continuing "
@@ -61,7 +61,7 @@ PROPS = {
                "grid in theta-space and at random joints (oracle: angle between the joint-4 and joint-6 axes of the independent link "
                "chain); inverse_continuing at exactly singular poses (theta5 = 0) on well-conditioned postures with the previous joints "
                "realising the pose / having another J4-J6 split. non-trivial = every hook/sing line; inverse lines with >= 1 answer"),
-    "C09": cfg(1300, 60000, ["C09.", "C01.fk", "C01.finite", "C03.fwd_eq_chain_ref", "C04.sorted", "C06.j6"],
+    "C09": cfg(1300, 60000, ["C09.", "C01.fk", "C01.finite", "C03.fwd_eq_chain_ref", "C03.links_eq_ref", "C04.sorted", "C06.j6", "C11.exact_filter"],
                "EXHAUSTIVE delegation matrix: every order of tool/base/frame to depth 2 (quick, 13 stack shapes) resp. 3 (thorough, 40 "
                "shapes) x general and axial isometries x {forward+links, inverse, inverse_continuing, inverse_5dof, "
                "inverse_continuing_5dof (axial), kinematic_singularity, constraints()} x robot zoo, with and without limits; "
